@@ -83,4 +83,82 @@ func runConCheck(tier string, seed int64) {
 			}
 		}
 	}
+	runConCheckMixed(tier, seed, budget)
+}
+
+// runConCheckMixed: validations under DIFFERENT languages that overlap in time (a process serving users of several
+// languages).  Every goroutine has one language and cycles through a valid sentence, a sentence of list words with a
+// wrong last word, a valid sentence of a neighbour's language (acceptable count, no token in this list) and a
+// sentence that is one word short: verdict and kind of error are those of the call made alone (C03, C12, C15;
+// seeded change C15k: a one-entry "last language" cache kept in two separate atomics).
+func runConCheckMixed(tier string, seed int64, budget time.Duration) {
+	r := newRng(seed, "concheck/mixed")
+	const G = 16
+	for round, K := range []int{2, 5, 3} {
+		perm := r.perm(10)
+		size := sizes[(round+int(seed))%len(sizes)]
+		type tcase struct {
+			s    string
+			lang int
+		}
+		cases := make([][]tcase, G)
+		for gi := 0; gi < G; gi++ {
+			lang, other := perm[gi%K], perm[(gi+1)%K]
+			v := indicesOf(r.bytes(size))
+			w := append([]int(nil), v...)
+			w[len(w)-1] ^= 1 + r.intn(15) // the checksum bits of another last word
+			cases[gi] = []tcase{{sentence(v, lang, " "), lang}, {sentence(w, lang, " "), lang}, {sentence(v, other, " "), lang},
+				{sentence(v[:len(v)-1], lang, " "), lang}}
+		}
+		type obs struct {
+			n       int
+			err     error
+			crashed bool
+		}
+		seen := make([]map[string]*obs, G)
+		start := make(chan struct{})
+		deadline := time.Now().Add(budget)
+		var wg sync.WaitGroup
+		for gi := 0; gi < G; gi++ {
+			wg.Add(1)
+			seen[gi] = map[string]*obs{}
+			go func(gi int) {
+				defer wg.Done()
+				<-start
+				for k := 0; ; k++ {
+					if k%64 == 0 && time.Now().After(deadline) {
+						return
+					}
+					c := cases[gi][k%len(cases[gi])]
+					var err error
+					var valid bool
+					o := guarded(func() {
+						err = bip39.CheckMnemonic(c.s, bip39.Language(c.lang))
+						valid = bip39.IsMnemonicValid(c.s, bip39.Language(c.lang))
+					})
+					key := strconv.Itoa(k%len(cases[gi])) + "/" + strconv.FormatBool(valid) + "/" + strconv.FormatBool(o.panicked || o.timeout) + "/"
+					if err != nil {
+						key += err.Error()
+					}
+					if x := seen[gi][key]; x != nil {
+						x.n++
+					} else {
+						seen[gi][key] = &obs{1, err, o.panicked || o.timeout}
+					}
+					if o.panicked || o.timeout {
+						return
+					}
+				}
+			}(gi)
+		}
+		close(start)
+		wg.Wait()
+		for gi := 0; gi < G; gi++ {
+			for key, x := range seen[gi] {
+				c := cases[gi][int(key[0]-'0')]
+				emit(Event{"op": "Check", "in": units(c.s), "lang": c.lang, "err": errRec(x.err), "valid": key[2:6] == "true", "in_same": true,
+					"conc": true, "cls": "concheck", "g": gi, "count": x.n, "panicked": x.crashed, "timeout": false})
+			}
+		}
+	}
 }
